@@ -313,6 +313,7 @@ func (r *binaryReader) StepOut() error {
 	}
 
 	if err := r.bits.StepOut(); err != nil {
+		r.err = err
 		return err
 	}
 
